@@ -13,6 +13,7 @@ import (
 	"math/big"
 	"runtime"
 	"strings"
+	"time"
 
 	"golang.org/x/tools/go/ssa"
 )
@@ -395,6 +396,9 @@ func (e *Engine) runFrame(fr *frame) {
 			e.steps++
 			if e.steps > e.StepLimit {
 				panic(engineError{fmt.Sprintf("step budget of %d instructions exceeded (unbounded loop?)", e.StepLimit)})
+			}
+			if e.steps&0xfffff == 0 && !e.Deadline.IsZero() && e.lenient == 0 && time.Now().After(e.Deadline) {
+				panic(engineError{"time budget exhausted inside a path (unbounded loop?)"})
 			}
 			var k int
 			if e.lenient > 0 {
